@@ -23,7 +23,7 @@ ASSUMPTIONS = [
     "GeneratedCodeOrigin is a code origin for the purpose of '+' (it subclasses CodeOrigin)",
     "points with equal index but different line/column are compared like any others: by index only",
 ]
-MUST_SEE = ["grid_pairs", "grid_triples", "illformed_rejected", "hull_merges", "multi_results", "multi_operands", "sourceset_results", "get_raw_checked", "nested_range_pairs", "equal_but_distinct_sources", "same_index_other_linecol"]
+MUST_SEE = ["concat_of_many_operands", "get_raw_after_file_appeared", "grid_pairs", "grid_triples", "illformed_rejected", "hull_merges", "multi_results", "multi_operands", "sourceset_results", "get_raw_checked", "nested_range_pairs", "equal_but_distinct_sources", "same_index_other_linecol"]
 CONFIG = {
     "quick": {"shards": 16, "tuples": 15000, "watchdog_s": 300},
     "thorough": {"shards": 32, "tuples": 40000, "watchdog_s": 3000},
@@ -402,6 +402,55 @@ def origin_checks(ctx):
         # binary + on the first two
         if len(ops) >= 2:
             do_pair(ops[0], ops[1], objs[0], objs[1])
+    # ---- very many operands: concat / merge are promised for any number of them ----
+    if ctx.only_case is None:
+        t0 = O.TEXTS[0]
+        n_ops = 1500
+        # touching one-character code ranges of one source -> one hull; alternating sources -> one flat multi-origin
+        chain = [("code", 0, i % (len(t0) - 1), i % (len(t0) - 1) + 1) for i in range(n_ops)]
+        hullchain = [("code", 0, min(i, len(t0)), min(i + 1, len(t0))) for i in range(len(t0))] * 1
+        for name, ops in (("hull", hullchain * 40), ("multi", [("code", i % 2, 1, 2 + (i % 3)) if i % 3 else ("xml", i % 3, "/a") for i in range(n_ops)])):
+            objs = [O.build_origin(sp) for sp in ops]
+            ctx.evaluations += 1
+            ctx.count("concat_of_many_operands")
+            try:
+                c = concat_origins(*objs)
+                m = merge_origins(*objs)
+            except RecursionError as e:
+                ctx.violation("concat", f"concat_origins / merge_origins of {len(objs)} operands raised RecursionError", {"operands": len(objs), "kind": name, "error": str(e)[:80]})
+                continue
+            acc = ops[0]
+            for sp in ops[1:]:
+                acc = ref_add(acc, sp)
+            compare_result(ctx, c, acc, None, {"operands": f"{len(ops)} operands ({name})"}, "concat")
+            if type(m).__name__ != "MultiOrigin" or len(m.origins) != len(objs) or any(x is not y for x, y in zip(m.origins, objs)):
+                ctx.violation("merge", "merge_origins of many operands does not list the operand objects in order", {"operands": len(objs), "kind": name})
+    # ---- a file-backed text source whose file appears later: get_raw is the slice once the source has its text ----
+    if ctx.only_case is None:
+        import os
+        import tempfile
+        from pathlib import Path
+
+        from pyoak.origin import CodePoint, CodeRange, TextFileSource
+
+        late = Path(tempfile.gettempdir()) / f"verif_pyoak_late_{os.getpid()}_{ctx.shard}.sql"
+        if late.exists():
+            late.unlink()
+        try:
+            src = TextFileSource(late)
+            text = "select late from source\n"
+            a = CodeOrigin(src, CodeRange(CodePoint(*O.point_for(text, 2)), CodePoint(*O.point_for(text, 6))))
+            b = CodeOrigin(src, CodeRange(CodePoint(*O.point_for(text, 6)), CodePoint(*O.point_for(text, 11))))
+            before = (a.get_raw(), (a + b).get_raw())
+            late.write_text(text)
+            ctx.evaluations += 1
+            ctx.count("get_raw_after_file_appeared")
+            after = (a.get_raw(), (a + b).get_raw(), src.get_raw())
+            if before != (None, None) or after != (text[2:6], text[2:11], text):
+                ctx.violation("get_raw", "get_raw of code origins over a text file source is not the exact slice once the file exists", {"before_file_existed": before, "after": after, "expected": (text[2:6], text[2:11])})
+        finally:
+            if late.exists():
+                late.unlink()
     if merge_origins() is not NO_ORIGIN:
         ctx.violation("merge", "merge_origins() of nothing must be NoOrigin", {})
     ctx.extra.pop("_fqn", None)
